@@ -205,7 +205,7 @@ CHECKS = {
         "iterators, are executed on the three real implementations under ASan and each history ends with the iterators freed and a full "
         "dictionary probe; TLC validates every recorded result (MapTrace.tla). Steps that fall under the four recorded findings are left "
         "out of generated behaviours and re-checked by directed reproducers.",
-   note="Bounded histories and key alphabet; iterators are not advanced past their end; memory safety is observed by ASan/UBSan; known findings KF-C18-1..4 are excluded by trigger (harness --kf-skip).",
+   note="Bounded histories and key alphabet; iterators are not advanced past their end; memory safety is observed by ASan/UBSan; the four findings first recorded for C18 are repaired (known_findings.jsonl), so no step is excluded; should one return, its directed history fails.",
    technique="TLA+ model checking (TLC) + model-generated interleavings replayed on the C code + TLC trace validation + sanitizer monitor",
    design_ref="DESIGN.md section 4, C18"),
 }
